@@ -256,6 +256,63 @@ pub fn structured(orig: &[u8], map: &ProofMap, rng: &mut Rng, digest: usize) -> 
                 out.push(Mutant { class: format!("blob-shrink-element:{}", generic(&f.name)), bytes: b });
             }
         }
+        // field elements overwritten by non-canonical / boundary encodings: all ones, all ones but the
+        // lowest bit, the modulus itself, modulus + 1, modulus - 1, 2^(8k-1) - style values
+        if let Some(mf) = field("context.field_modulus") {
+            let modulus = orig[mf.off..mf.off + mf.len].to_vec();
+            let add_small = |v: &[u8], d: i16| -> Vec<u8> {
+                let mut out = v.to_vec();
+                let mut carry = d;
+                for b in out.iter_mut() {
+                    let t = *b as i16 + carry;
+                    *b = t.rem_euclid(256) as u8;
+                    carry = t.div_euclid(256);
+                    if carry == 0 {
+                        break;
+                    }
+                }
+                out
+            };
+            let mut pats: Vec<(&str, Vec<u8>)> = vec![
+                ("all-ones", vec![0xFF; base_bytes]),
+                ("all-ones-but-lowest-bit", std::iter::once(0xFEu8).chain(std::iter::repeat(0xFF).take(base_bytes - 1)).collect()),
+                ("modulus", modulus.clone()),
+                ("modulus+1", add_small(&modulus, 1)),
+                ("modulus-1", add_small(&modulus, -1)),
+                ("modulus+2^40", {
+                    let mut m = modulus.clone();
+                    if m.len() > 5 {
+                        m[5] = m[5].wrapping_add(1);
+                    }
+                    m
+                }),
+            ];
+            let mut top = vec![0u8; base_bytes];
+            top[base_bytes - 1] = 0x80;
+            pats.push(("top-bit-only", top));
+            for f in map.fields.iter().filter(|f| f.kind == Kind::Blob && f.len >= elem && (f.name.starts_with("ood.") || f.name.ends_with(".values") || f.name == "fri.remainder")) {
+                // element-aligned start of the payload (OOD blobs carry a leading frame-size byte)
+                let lead = f.len % elem;
+                let n_el = (f.len - lead) / elem;
+                if n_el == 0 {
+                    continue;
+                }
+                for which in [0usize, n_el - 1, rng.usize(n_el)] {
+                    // first and last base coefficient of the chosen element
+                    for coeff in [0usize, ext - 1] {
+                        let at = f.off + lead + which * elem + coeff * base_bytes;
+                        for (pn, pat) in &pats {
+                            if orig[at..at + base_bytes] == pat[..] {
+                                continue;
+                            }
+                            let mut b = orig.to_vec();
+                            b[at..at + base_bytes].copy_from_slice(pat);
+                            out.push(Mutant { class: format!("element-overwritten({pn}):{}", generic(&f.name)), bytes: b });
+                        }
+                    }
+                }
+            }
+        }
         // whole rows added to / removed from the opened tables: query sets hold num_unique_queries
         // rows, FRI layers rows of folding-factor elements
         let nuq = field("num_unique_queries").map(|f| orig[f.off] as usize).unwrap_or(0);
